@@ -35,6 +35,9 @@ func c04Alphabet() []Op {
 		Op{K: "remove", P: "/posts", Ms: []string{"OPTIONS"}},
 		Op{K: "remove", P: "/posts", Ms: []string{"HEAD"}},
 		Op{K: "remove", P: "/posts", Ms: []string{"GET", "POST"}},
+		// reserved names in the middle of a list are skipped, the rest of the list still counts
+		Op{K: "remove", P: "/posts", Ms: []string{"HEAD", "GET"}},
+		Op{K: "remove", P: "/posts", Ms: []string{"POST", "", "OPTIONS", "GET"}},
 		Op{K: "handle", P: "/posts", Ms: []string{"TRACE"}}, // only enabled without WithTrace
 		Op{K: "remove", P: "/posts", Ms: []string{"TRACE"}},
 		Op{K: "clean"},
@@ -69,10 +72,17 @@ func c04Views(prop string, cfg RouterCfg, hist []Op, r *Router, t *ref.Table, c 
 		if g := setString(routes[pat]); g != want {
 			rep(prop+".routes", "routes-differ:"+diffSets(routes[pat], t.Allow(pat)), "Routes()["+pat+"]", g, want, hv.Req{}, "routes")
 		}
-		for _, m := range []string{"OPTIONS", "BOGUS", "GET", "POST"} {
+		first := ""
+		for i, m := range []string{"OPTIONS", "BOGUS", "GET", "POST", "PROPFIND", "get"} {
 			q := hv.Req{Method: m, Path: w}
 			o := hv.Serve(r, q)
 			c.Probes++
+			// which pattern answers a path does not depend on the method: a 405 is the 405 of the pattern OPTIONS found
+			if i == 0 {
+				first = o.Pattern
+			} else if !o.Paniced && o.Pattern != first {
+				rep(prop+".allow-header", "node-depends-on-method", q.String(), o.Summary(), "answered on behalf of the pattern that answers OPTIONS for this path: "+first, q, "dispatch")
+			}
 			outc[fmt.Sprintf("%s/%d/%s/%s", m, o.Status, o.Kind, o.Allow)] = struct{}{}
 			if o.Paniced {
 				rep(prop+".no-panic", "panic:"+shortPanic(o.Panic), q.String(), fmt.Sprintf("panic: %v", o.Panic), "no panic", q, "dispatch")
